@@ -308,6 +308,12 @@ Definition request_asset (pr : peer_state) (c : aclass) (a : uuid) (owner : peer
 Definition insert_asset (pr : peer_state) (k : akind) (a : uuid) (v : N) : peer_state :=
   pr <| a_store := <[akey k a := v]> (a_store pr) |> <| a_events := a_events pr ++ [(k, a)] |>.
 
+(* react_on_changed_components: the queue of detected changes goes out *)
+Definition react_on_changed_components (server : bool) (pr : peer_state) : peer_state :=
+  let q := t_queue pr in
+  let pr := pr <| t_queue := [] |> in
+  foldl (fun pr '(u, t, v) => if server then broadcast pr (MComp u t v) else send_up pr (MComp u t v)) pr q.
+
 (* ---------- deferred commands ------------------------------------------------------------ *)
 
 Definition apply_cmd (pr : peer_state) (c : cmd) : peer_state :=
@@ -356,6 +362,8 @@ Definition apply_cmd (pr : peer_state) (c : cmd) : peer_state :=
       end
   | CRelay from m => relay_except pr from m
   | CSendInitialSync to =>
+      (* repair of S21 (8f66353): what was detected but not sent yet is sent before the snapshot is built *)
+      let pr := react_on_changed_components true pr in
       let '(pr, ms) := build_full_sync pr in
       let pr := foldl (fun pr m => send pr to m) pr ms in
       send pr to MFinInit
@@ -479,11 +487,6 @@ Definition sync_detect (pr : peer_state) (t : tyid) (last : tick) : peer_state :
                else pr
            | _, _ => pr
            end) pr (ents_list pr).
-
-Definition react_on_changed_components (server : bool) (pr : peer_state) : peer_state :=
-  let q := t_queue pr in
-  let pr := pr <| t_queue := [] |> in
-  foldl (fun pr '(u, t, v) => if server then broadcast pr (MComp u t v) else send_up pr (MComp u t v)) pr q.
 
 (* react_on_changed_materials / _images / _meshes / _audios *)
 Definition react_on_changed_assets (server : bool) (k : akind) (pr : peer_state) : peer_state :=
